@@ -522,3 +522,56 @@ UNITS += [
                       "UniformGrid::find returns that point's bin or the one below (roundoff; the code's own comment)", "ValueGridInserter and the std::vector handling are not under contract"],
          note="ValueGridXsBuilder::build (host code, whole function): the prime index handed to the inserter is the grid point of the prime energy for every position of that point incl. the first two; both in-body CELER_ASSERTs hold; find/operator[] preconditions hold"),
 ]
+
+
+# ---------------------------------------------------------------------------
+# GenericCalculator::operator() (non-uniform x grid; used for optical / generic tables)
+# ---------------------------------------------------------------------------
+GNC = "src/celeritas/grid/GenericCalculator.hh"
+GNC_MODEL = IRC_MODEL + """
+typedef struct { NonuniformGrid x_grid_; real_type const* y; size_type ny; } GenericCalculator;     /* y = reals_[y_offset_[0..ny)) */
+static real_type GNC_at(GenericCalculator const* self, size_type index) { __CPROVER_assert(index < self->ny, "celer_expect: GenericCalculator::operator[] index < y_offset_.size()"); return self->y[index]; }   /* operator[] */
+"""
+GNC_RULES = [
+    Rule(r"LinearInterpolator<real_type> interpolate_xs\(\s*\{([^{}]*),([^{}]*)\},\s*\{([^{}]*),([^{}]*)\}\);", r"real_type ip_x0_ = \1, ip_y0_ = \2, ip_x1_ = \3, ip_y1_ = \4;", 1, note="LinearInterpolator construction -> its four arguments"),
+    Rule(r"x_grid_\.(front|back|size)\(\)", r"NUG_\1(&self->x_grid_)", "*", note="NonuniformGrid accessor"),
+    Rule(r"x_grid_\.find\(", "NUG_find(&self->x_grid_, ", "*", note="NonuniformGrid::find -> stub with the c18_nonuniform_find contract"),
+    Rule(r"x_grid_\[([^\[\]]*)\]", r"NUG_index(&self->x_grid_, \1)", "*", note="NonuniformGrid::operator[] (asserts i < size)"),
+    Rule(r"\(\*this\)\[([^\[\]]*)\]", r"GNC_at(self, \1)", "*", note="operator[] (asserts index < size)"),
+    Rule(r"return interpolate_xs\(([^()]*)\);", r"return __CPROVER_uninterpreted_interp(ip_x0_, ip_y0_, ip_x1_, ip_y1_, \1);", "*", note="interpolator call -> uninterpreted function (exactness at the knots: c18_interp_linear)"),
+]
+
+
+def build_generic_call(ctx):
+    pc = ctx.func(GNC, r"^CELER_FUNCTION real_type GenericCalculator::operator\(\)\(real_type x\) const", GNC_RULES, name="GenericCalculator::operator()")
+    return (HDR + CALC_MODEL + GNC_MODEL + """
+#define XA(i) (self->x_grid_.a[i])
+#define XN (self->x_grid_.n)
+real_type GNC_call(GenericCalculator const* self, real_type x)
+__CPROVER_requires(self != 0 && XN >= 2 && XN <= 100000 && self->ny == XN && __CPROVER_r_ok(self->x_grid_.a, XN * sizeof(real_type)) && __CPROVER_r_ok(self->y, XN * sizeof(real_type)))    /* constructor EXPECT: same number of x and y points */
+__CPROVER_requires(!__CPROVER_isnand(x) && FIN(XA(0)) && FIN(XA(XN - 1)) && XA(0) < XA(XN - 1))
+__CPROVER_assigns(g_bin)
+/* clamped outside the table: first value at or below the first abscissa, last value at or above the last */
+__CPROVER_ensures(x <= XA(0) ==> EQV(__CPROVER_return_value, self->y[0]))
+__CPROVER_ensures((x > XA(0) && x >= XA(XN - 1)) ==> EQV(__CPROVER_return_value, self->y[XN - 1]))
+/* inside: interpolation between exactly the two knots that bracket x */
+__CPROVER_ensures((x > XA(0) && x < XA(XN - 1)) ? (g_bin + 1 < XN && XA(g_bin) <= x && x < XA(g_bin + 1)
+      && EQV(__CPROVER_return_value, __CPROVER_uninterpreted_interp(XA(g_bin), self->y[g_bin], XA(g_bin + 1), self->y[g_bin + 1], x))) : 1)
+{""" + pc.body + """}
+void h_gnc(void)
+{
+    size_type n; __CPROVER_assume(n >= 2 && n <= 100000);
+    real_type* xs = malloc(n * sizeof(real_type)); real_type* ys = malloc(n * sizeof(real_type)); __CPROVER_assume(xs != 0 && ys != 0);
+    GenericCalculator c = {{xs, n}, ys, n}; real_type x;
+    GNC_call(&c, x);
+    VERIF_CANARY();
+}
+""")
+
+
+UNITS += [
+    Unit("c14_generic_call", build_generic_call, "h_gnc", enforce="GNC_call", timeout=300, backend=["sat", "cvc5", "z3"],
+         must_have=[r"GNC_call.postcondition", r"celer_assert", r"NUG_find.precondition", r"NUG_index.precondition", r"GenericCalculator::operator\[\]"], checks=["--bounds-check", "--pointer-check"],
+         assumptions=["LinearInterpolator uninterpreted here (its exactness at the left knot / on flat bins: c18_interp_linear)", "NonuniformGrid::find by its c18_nonuniform_find contract"],
+         note="GenericCalculator::operator(): every grid / value index in range, find() only called strictly inside the table, clamped to the end values outside, interpolation between the two knots that bracket x"),
+]
